@@ -101,6 +101,7 @@ type Conn struct {
 	exports    []*expent
 	exportID   idgen
 	imports    map[importID]*impent
+	importGen  uint64 // last generation number given to an importClient
 	embargoes  []*embargo
 	embargoID  idgen
 }
